@@ -153,18 +153,23 @@ func (h *sessionHandler) ServeHTTP(w http.ResponseWriter, r *http.Request) {
 	urlForCookies.Scheme = "https"
 	urlForCookies.Host = r.Host
 	sessionID := h.extractSessionID(r)
-	cachedCookieJar, err := h.c.cachedCookieJar(sessionID)
-	if err != nil {
-		// There is a session cookie but we could not fetch the corresponding cookie jar.
-		//
-		// This should not happen and represents an internal error in the session handling logic.
-		log.Printf("Failure reading the cookie jar for session %q: %v", sessionID, err)
-		statusCode := http.StatusInternalServerError
-		http.Error(w, fmt.Sprintf("Internal error reading the session %q", sessionID), statusCode)
-		h.metricHandler.WriteResponseCodeMetric(statusCode)
-		return
+	var cachedCookies []*http.Cookie
+	if sessionID != "" {
+		// Requests without a session have no jar; looking one up under the empty ID
+		// would occupy (and keep refreshing) one slot of the session cache.
+		cachedCookieJar, err := h.c.cachedCookieJar(sessionID)
+		if err != nil {
+			// There is a session cookie but we could not fetch the corresponding cookie jar.
+			//
+			// This should not happen and represents an internal error in the session handling logic.
+			log.Printf("Failure reading the cookie jar for session %q: %v", sessionID, err)
+			statusCode := http.StatusInternalServerError
+			http.Error(w, fmt.Sprintf("Internal error reading the session %q", sessionID), statusCode)
+			h.metricHandler.WriteResponseCodeMetric(statusCode)
+			return
+		}
+		cachedCookies = cachedCookieJar.Cookies(&urlForCookies)
 	}
-	cachedCookies := cachedCookieJar.Cookies(&urlForCookies)
 	h.restoreSession(r, cachedCookies)
 	w = &sessionResponseWriter{
 		c:             h.c,
